@@ -63,51 +63,53 @@ def main(tier):
         n += 1
         what = "L=%d k=%d fmg_cycle=%s ext=%s nu=(%d,%d)" % (mode["L"], mode["FMG_iterations"], KN[mode["FMG_cycle"]], EXT[mode["extrapolation"]], mode["nu1"], mode["nu2"])
         outs = sr.scenario_fresh(prog, mode, with_accessors=False, only_init=True)
-        if len(outs) != 1:
-            raise ir.AnalysisBroken("initializeSolution has %d value-dependent paths in mode %s" % (len(outs), what))
-        o = outs[0]
-        dom = o.dom
-        L = mode["L"]
-        ext = mode["extrapolation"] != 0
-        fgs = mode["extrapolation"] in (0, 2, 3)
-        want_rhs = setup_rhs(L, True, ext)
-        # ---- R-C09-3
-        ck.instance("R-C09-3", what)
-        probs = []
-        for l in range(L):
-            b = dom.rhs_after_setup.get((l, "rhs"))
-            if b is None or not b["alloc"]:
-                probs.append("level %d has no right-hand side vector although FMG reads it" % l)
-            elif b["val"] is not want_rhs[l]:
-                probs.append("rhs of level %d after setup is %s, expected %s" % (l, show(b["val"])[:200], show(want_rhs[l])[:200]))
-        for ev in o.events:
-            if ev.kind in ("unallocated", "uninitialised-operator", "oob-level", "wrong-level", "alias", "level-order"):
-                probs.append(repr(ev))
-        if o.throws:
-            probs.append("throws %s at %s" % (o.throws.what, o.throws.site))
-        if probs:
-            ck.violation("R-C09-3", "setup-rhs:%s" % probs[0][:60], "src/GMGPolar/setup.cpp", "%s: %s" % (what, "; ".join(probs)[:1200]))
-        else:
-            ck.ok("R-C09-3", what)
-        # ---- R-C09-2
-        ck.instance("R-C09-2", what)
-        orc = Oracle(L, mode["nu1"], mode["nu2"], ext, fgs, want_rhs)
-        want = orc.fmg(mode["FMG_cycle"], mode["FMG_iterations"])
-        got = o.solution
-        if got is want and not o.throws:
-            smp = None
-            if sampled < 3 and mode["FMG_iterations"] == 0:
-                sampled += 1
-                smp = {"mode": what, "start vector": show(got)[:300]}
-            ck.ok("R-C09-2", what, sample=smp)
-        else:
-            bad = has_kind(got, ("stale", "clob")) if got is not None else []
-            fn = prog.fn("GMGPolar::initializeSolution")
-            ck.violation("R-C09-2", "initializeSolution:start-vector", ir.locstr(fn),
-                         "%s: the finest-level start vector is\n      %s\n    but nested iteration from the coarsest level gives\n      %s%s" % (
-                             what, show(got)[:500] if got is not None else None, show(want)[:500],
-                             ("\n    (depends on history: %s)" % ", ".join(sorted(set(show(a) for a in bad)))) if bad else ""),
-                         detail=dom.oplog[-40:])
+        if not outs:
+            raise ir.AnalysisBroken("no path through setup()/initializeSolution in mode %s" % what)
+        # usually one path; a branch on something the driver model does not know (an option added later) gives several, and
+        # every one of them must produce the same start vector
+        for o in outs:
+          dom = o.dom
+          L = mode["L"]
+          ext = mode["extrapolation"] != 0
+          fgs = mode["extrapolation"] in (0, 2, 3)
+          want_rhs = setup_rhs(L, True, ext)
+          # ---- R-C09-3
+          ck.instance("R-C09-3", what)
+          probs = []
+          for l in range(L):
+              b = dom.rhs_after_setup.get((l, "rhs"))
+              if b is None or not b["alloc"]:
+                  probs.append("level %d has no right-hand side vector although FMG reads it" % l)
+              elif b["val"] is not want_rhs[l]:
+                  probs.append("rhs of level %d after setup is %s, expected %s" % (l, show(b["val"])[:200], show(want_rhs[l])[:200]))
+          for ev in o.events:
+              if ev.kind in ("unallocated", "uninitialised-operator", "oob-level", "wrong-level", "alias", "level-order"):
+                  probs.append(repr(ev))
+          if o.throws:
+              probs.append("throws %s at %s" % (o.throws.what, o.throws.site))
+          if probs:
+              ck.violation("R-C09-3", "setup-rhs:%s" % probs[0][:60], "src/GMGPolar/setup.cpp", "%s: %s" % (what, "; ".join(probs)[:1200]))
+          else:
+              ck.ok("R-C09-3", what)
+          # ---- R-C09-2
+          ck.instance("R-C09-2", what)
+          orc = Oracle(L, mode["nu1"], mode["nu2"], ext, fgs, want_rhs)
+          want = orc.fmg(mode["FMG_cycle"], mode["FMG_iterations"])
+          got = o.solution
+          if got is want and not o.throws:
+              smp = None
+              if sampled < 3 and mode["FMG_iterations"] == 0:
+                  sampled += 1
+                  smp = {"mode": what, "start vector": show(got)[:300]}
+              ck.ok("R-C09-2", what, sample=smp)
+          else:
+              bad = has_kind(got, ("stale", "clob")) if got is not None else []
+              fn = prog.fn("GMGPolar::initializeSolution")
+              ck.violation("R-C09-2", "initializeSolution:start-vector", ir.locstr(fn),
+                           "%s: the finest-level start vector is\n      %s\n    but nested iteration from the coarsest level gives\n      %s%s" % (
+                               what, show(got)[:500] if got is not None else None, show(want)[:500],
+                               ("\n    (depends on history: %s)" % ", ".join(sorted(set(show(a) for a in bad)))) if bad else ""),
+                           detail=dom.oplog[-40:])
     ck.extra["modes"] = n
     # ---- R-C09-4: the same start vector on a previously used solver object
     ck.rule("R-C09-4", "setup(); solve(); solve(): the FMG start vector of the second solve is the same nested-iteration term, no start-up branch depends on history", floor=8)
